@@ -27,7 +27,7 @@ func VerifH_done() {
 	post0 := w.snap()
 	placed, _ := w.placedOn(pre0, post0)
 	on := w.refs[verifCase("on")] // case split: the channel the call was placed on
-	verifAssume(placed == on)      // exactly one channel is charged: established by the pick harness (C02)
+	verifAssume(placed == on)     // exactly one channel is charged: established by the pick harness (C02)
 	done := verifNarrow(res.Done)
 
 	// ---- anything may happen between placement and completion ----
